@@ -47,11 +47,12 @@ def sched_program(rng, provider, ternary):
             Rel('r', kt + [I, I], ds=provider),
             Rel('mirror', kt + [I, I]), Rel('rd_bf', kt + [I, I]), Rel('rd_fb', kt + [I, I]), Rel('rd_bb', kt + [I, I]),
             Rel('rd_xx', kt + [I]), Rel('rd_c', kt + [I]), Rel('cnt', [I]), Rel('cntk', kt + [I, I]), Rel('non', kt + [I, I]),
-            Rel('back', kt + [I, I])]
+            Rel('back', kt + [I, I]), Rel('jn', kt + [I, I]), Rel('trig', kt + [I]), Rel('jn2', kt + [I, I])]
     c = rng.randrange(0, 4)
     rules = [
         Rule([Head('r', kv + [V('x'), V('y')])], [Clause('seed', ka + [AVar('x'), AVar('y')])]),
-        Rule([Head('r', k2v + [V('x'), V('y')])], [Clause('r', ka + [AVar('a'), AVar('b')]), Clause('feed', ka + [AVar('a'), AVar('b')] + k2a + [AVar('x'), AVar('y')])]),
+        # (multi-head: `trig` gets a new tuple in the very iteration in which the fact for its key arrives)
+        Rule([Head('r', k2v + [V('x'), V('y')]), Head('trig', k2v + [V('x')])], [Clause('r', ka + [AVar('a'), AVar('b')]), Clause('feed', ka + [AVar('a'), AVar('b')] + k2a + [AVar('x'), AVar('y')])]),
         Rule([Head('mirror', kv + [V('x'), V('y')])], [Clause('r', ka + [AVar('x'), AVar('y')])]),
         Rule([Head('rd_bf', kv + [V('x'), V('y')])], [Clause('q', [AVar('x')]), Clause('r', ka + [AVar('x'), AVar('y')])]),
         Rule([Head('rd_fb', kv + [V('x'), V('y')])], [Clause('q', [AVar('y')]), Clause('r', ka + [AVar('x'), AVar('y')])]),
@@ -65,6 +66,12 @@ def sched_program(rng, provider, ternary):
         # a reader inside the recursive stratum that feeds the tagged relation back
         Rule([Head('back', kv + [V('x'), V('y')])], [Clause('r', ka + [AVar('x'), AVar('y')]), Clause('q2', [AVar('x')])]),
         Rule([Head('r', kv + [V('y'), V('x')])], [Clause('back', ka + [AVar('x'), AVar('y')]), Clause('q3', [AVar('y')])]),
+        # the delta of another relation of the stratum joined against (older) facts of the tagged relation, key bound
+        Rule([Head('jn', kv + [V('x'), V('y')])], [Clause('back', ka + [AVar('x'), AVar('w')]), Clause('r', ka + [AVar('w'), AVar('y')])]),
+        Rule([Head('r', kv + [V('x'), V('y')])], [Clause('jn', ka + [AVar('x'), AVar('y')]), Clause('q3', [AVar('x')]), Clause('q', [AVar('y')])]),
+        # ... and a relation whose delta is one iteration ahead of `back`'s, joined against the key's older facts
+        Rule([Head('jn2', kv + [V('w'), V('y')])], [Clause('trig', ka + [AVar('w')]), Clause('r', ka + [AVar('w'), AVar('y')])]),
+        Rule([Head('r', kv + [V('y'), V('w')])], [Clause('jn2', ka + [AVar('w'), AVar('y')]), Clause('q3', [AVar('w')]), Clause('q2', [AVar('y')])]),
     ]
     if ternary:
         # readers binding the key column in every combination
